@@ -280,7 +280,8 @@ fn run_prog(tlk: &str, fam: &str, segs: &str) -> String {
     };
     let d = default_fam();
     let base = render(&mk_env(tlk, &d).unwrap(), &unparse(&d, segs));
-    format!("prog {} {} {}\tsrc={}\tout={}\tbase={}", tlk, fam, segs, hexs(&src), out, base)
+    let tok = lex(tlk, &f, &src);
+    format!("prog {} {} {}\tsrc={}\ttok={}\tout={}\tbase={}", tlk, fam, segs, hexs(&src), tok, out, base)
 }
 
 /// lines: `;`-joined  X<hex> (text line) | S<hex indent>.<hex trail> (statement line, alternating
@@ -363,7 +364,7 @@ fn run_cfg(fam: &str) -> String {
             // a configuration that is accepted must lex a probe without panicking or hanging, and
             // render it either as written or not at all (syntax error)
             let probe = format!("a {} v {} b {} if t {}c{} endif {}{} x {} d", f.vs(), f.ve(), f.bs(), f.be(), f.bs(), f.be(), f.cs(), f.ce());
-            let p = guarded(|| tokenize(&probe, false, syn, WhitespaceConfig::default()).take(10_000).count());
+            let p = guarded(|| tokenize(&probe, false, syn, WhitespaceConfig::default()).take_while(|t| t.is_ok()).take(10_000).count());
             let rendered = match mk_env("001", &f) {
                 Some(env) => render(&env, &probe),
                 None => "badcfg".into(),
@@ -584,6 +585,33 @@ fn degenerate_items(all_raw: bool) -> Vec<String> {
     v
 }
 
+/// tag interiors beyond the fixed vocabulary: strings containing end delimiters, brackets, numbers in
+/// every notation, operators next to the end delimiter, lexer errors
+const VAR_INTERIORS: [&str; 62] = [
+    "1", " 1 ", " 1 -", " x - ", " -1 ", "-1", "+1", " 'a' ", " '}}' ", " \"%}\" ", " '%>' ", " {'a': '}}'} ", " {'a': 1}.a ",
+    " [1, 2][0] ", " (1 + 2) * 3 ", " 7 // 2 ", " 2 ** 3 ", " 1 == 1 ", " 1 != 2 ", " 1 <= 2 ", " 2 >= 1 ", " x|default('d') ",
+    " 1e5 ", " 1.5 ", " 1_000 ", " 0x1F ", " 0b101 ", " 0o17 ", " 0b12 ", " 1e ", " 1e+ ", " 1_ ", " 1.foo ", " 1.e5 ", " 1. ",
+    " 1.5e-3 ", " 0x ", " 0X_f ", " 999999999999999999999999999999999999999 ", " 340282366920938463463374607431768211456 ",
+    " 'a\\'b' ", " \"a\\\"b\" ", " 'unterminated ", " x ! ", " a.b ", " v ~ '}}' ~ v ", " {{ ", " }} x", " } ", " ) ", "(",
+    " '\\n' ", " v if t else w ", " [ '}}' , \"%}\" ] ", " 1 - ", " x -", " x +", " (1 -) ", " v|f(a=1) ", " 1 > 2 ", " a = b ", " x\n",
+];
+
+const BLOCK_INTERIORS: [&str; 8] = [
+    " if t and (1 < 2) ", " set x = '%}' ", " if (t) ", " if t -", " rawx ", " raw", " if '%}' ", "if t",
+];
+
+fn interior_items() -> Vec<String> {
+    let mut v = vec![];
+    for (k, list) in [('v', &VAR_INTERIORS[..]), ('b', &BLOCK_INTERIORS[..])] {
+        for body in list {
+            for (l, r) in [('_', '_'), ('-', '_'), ('_', '-'), ('-', '-'), ('+', '+')] {
+                v.push(format!("G{}{}{}{}", k, l, r, hexs(body)));
+            }
+        }
+    }
+    v
+}
+
 fn t_item(s: &str) -> String {
     format!("T{}", hexs(s))
 }
@@ -657,6 +685,15 @@ fn gen_seg(out: &mut impl Write, tier: &str, rng: &mut Rng, part: &str, chunk: u
                 seqs.push(format!("{};{}", g, g2));
                 seqs.push(format!("{};{}", g2, g));
                 seqs.push(format!("T20;{};T0a;{};T20", g, g2));
+            }
+        }
+    }
+    // richer tag interiors in a few text contexts
+    let interiors = interior_items();
+    for g in &interiors {
+        for a in ["", " ", "\n"] {
+            for b in ["", " ", "\n"] {
+                seqs.push(format!("{};{};{}", t_item(a), g, t_item(b)));
             }
         }
     }
@@ -755,6 +792,9 @@ fn gen_seg(out: &mut impl Write, tier: &str, rng: &mut Rng, part: &str, chunk: u
                     fseqs.push(format!("{};{};{}", t_item(a), g, t_item(b)));
                 }
             }
+        }
+        for g in &interiors {
+            fseqs.push(format!("T20;{};T0a", g));
         }
         for s in &fseqs {
             // two settings exhaustively, the others sampled
